@@ -53,7 +53,7 @@ def prepare(case, r: R):
     return ref, A, B, ev
 
 
-def check_transient(case, r: R):
+def _check_transient_one(case, r: R):
     from CircuitCalculator.Circuit.solution import TransientSolution
     p = prepare(case, r)
     if p is None:
@@ -273,6 +273,22 @@ def settling_case(draw):
     mode = draw(st.sampled_from(['dc', 'dc', 'sin']))
     return {'circuit': draw(dy.ladder_circuit(max_sections=2) if mode == 'sin' else dy.any_dynamic(max_states=3)), 'mode': mode, 'wf': draw(st.sampled_from([0.2, 1.0, 3.0])),
             'phis': draw(st.lists(st.sampled_from([0.0, 1.0, -2.0, math.pi / 2]), min_size=1, max_size=2))}
+
+
+def check_transient(case, r: R):
+    """the case itself, then - in the same process - its value-perturbed twin (same names, topology, listing order):
+    a result that is cached or keyed by structure instead of by value shows up on the second evaluation"""
+    _check_transient_one(case, r)
+    if r.failures:
+        return
+    first_rejected, r.rejected = r.rejected, None
+    twin = dict(case)
+    twin['circuit'] = gen.twin_circuit(case['circuit'])
+    sub = R()
+    _check_transient_one(twin, sub)
+    for s_, d_ in sub.failures:
+        r.fail('twin:' + s_, d_)
+    r.rejected = first_rejected
 
 
 TESTS = [
